@@ -998,9 +998,28 @@ func modeChurn(args []string) {
 	warmUp()
 	p := newPKI()
 	defer p.cleanup()
+	// watchdog: a server whose registry query, accept path or Stop no longer returns would hang this run; that is a finding, reported
+	// as a row, not a reason to wait for the driver's timeout
+	var progress int64 = time.Now().UnixNano()
+	var current atomic.Value
+	current.Store("start")
+	touch := func() { atomic.StoreInt64(&progress, time.Now().UnixNano()) }
+	go func() {
+		for {
+			time.Sleep(time.Second)
+			if time.Since(time.Unix(0, atomic.LoadInt64(&progress))) > 40*time.Second {
+				emit(churnResult{Mode: current.Load().(string), Note: "no progress for 40 s: the server no longer answers (a registry query, the accept path, a connection's release or Stop does not return)"})
+				out.Flush()
+				os.Exit(0)
+			}
+		}
+	}()
 	modes := []string{"fin-boundary", "fin-mid", "rst", "quit", "malformed", "stops-reading", "tls-polite", "tls-rst", "tls-handshake-fail", "tls-rejected-cert", "tls-rejected-with-reason", "tls-stall"}
 	// one ending mode at a time (attributable), then all mixed
 	runBatch := func(name string, pick func(i int) string, n int, inflight int, stopWithOpen bool) {
+		current.Store(name)
+		touch()
+		defer touch()
 		var s *sut
 		var err error
 		var g0 int
@@ -1037,6 +1056,7 @@ func modeChurn(args []string) {
 				defer wg.Done()
 				defer func() { <-sem }()
 				oneEnding(p, s, m, i)
+				touch()
 				if c := int32(len(s.srv.Conns())); c > atomic.LoadInt32(&peak) {
 					atomic.StoreInt32(&peak, c)
 				}
